@@ -30,6 +30,7 @@ type KnownFinding struct {
 	Match    string `json:"match"` // substring of "<harness> <label> <site>"
 	What     string `json:"what"`
 	Commit   string `json:"commit,omitempty"`
+	Restrict string `json:"restrict,omitempty"` // additional substring that must also occur
 }
 
 type replayOutcome struct {
@@ -410,7 +411,7 @@ func matchKnown(known []KnownFinding, prop, desc string) *KnownFinding {
 		if k.Kind != "finding" || k.Property != prop {
 			continue
 		}
-		if k.Match != "" && strings.Contains(desc, k.Match) {
+		if k.Match != "" && strings.Contains(desc, k.Match) && (k.Restrict == "" || strings.Contains(desc, k.Restrict)) {
 			return k
 		}
 	}
